@@ -338,6 +338,11 @@ func (rn *runner) replayOne(b Behaviour, idx int) {
 					// C10 leaves the choice open (content correct, origin unproven / inconsistent T): follow-up not judged
 					res.AddExtra("drift:free-choice:"+in.Variant+":"+cs, 1)
 					abandon = true
+				case st.Act == "Response" && st.Record == "free" && k == strconv.Itoa(st.I):
+					// C10 leaves open whether this response is recorded (before the deal / after the timeout /
+					// observer dealt another T or polynomial): follow-up not judged
+					res.AddExtra("drift:free-choice:"+in.Variant+":"+cs, 1)
+					abandon = true
 				case g == "app" && tr != "app" && tr != "just":
 					kind := "counted-as-approval"
 					if st.Act == "Justification" {
